@@ -5,6 +5,7 @@ from .. import obs
 from ..model import cols
 
 LEVEL = "exploration"
+SUITE_MONITOR = True      # also judge the repository's own tests/doctests through rv/monitors.py
 RULE = ("Every string up to length N (3 quick, 5 thorough) over {2 narrow, 2 double-width, 1 "
         "combining} characters x every partition into runs (plus variants with empty runs) is "
         "built through the public API; f.width, width_at_offset(n) for every n and "
